@@ -28,6 +28,7 @@
 EXTENDS LoopContract, SequencesExt, FiniteSetsExt
 
 CONSTANTS
+    ChanLimit,   \* per-dispatch batch limit of channels (verif hook; 1024 in the code)
     Decl,        \* sequence of source declarations (same record shape as the harness' reset event)
     MaxSteps,    \* number of top-level operations
     MaxCbOps,    \* handle operations per callback invocation
@@ -70,7 +71,8 @@ VARIABLES
     edgeq,       \* set of fds with an unreported edge
     pingCnt,     \* per ping source: pings not yet drained (capped)
     closeBit,    \* per ping source: "no", "pending" (all handles gone, marker in the counter), "seen"
-    handles,     \* per ping source: live Ping handles held by the driver
+    handles,     \* per ping source: live Ping handles held by the driver;
+                 \* per channel source: [q: queued messages, snd: live senders, closed: Closed delivered, n: messages sent]
     tdl,         \* per timer: [has, v] the deadline the Timer holds
     treg,        \* per timer: [on, key, ctr] its Registration
     heap,        \* set of [dl, key, ctr]
@@ -98,7 +100,7 @@ Feed(m, evs) == FoldLeft(LAMBDA acc, e : Step(acc, e, 0), m, evs)
 Emit(evs) == /\ mon' = Feed(mon, evs)
              /\ hist' = IF RecordHist THEN hist \o evs ELSE hist
 
-ResetEv == [e |-> "reset", id |-> "model", srcs |-> Decl, tick_us |-> Tick, epfd |-> 0]
+ResetEv == [e |-> "reset", id |-> "model", srcs |-> Decl, tick_us |-> Tick, epfd |-> 0, limit |-> ChanLimit]
 
 Us == now * Tick
 
@@ -256,7 +258,7 @@ Init ==
   /\ gtok = [s \in S |-> [c \in 1..NC(s) |-> NoTok]]
   /\ kern = [f \in AllFds |-> [on |-> FALSE, key |-> NoTok, r |-> FALSE, w |-> FALSE, mode |-> "level", armed |-> FALSE]]
   /\ rdy = [f \in AllFds |-> 0] /\ edgeq = {}
-  /\ pingCnt = [s \in S |-> 0] /\ closeBit = [s \in S |-> "no"] /\ handles = [s \in S |-> 1]
+  /\ pingCnt = [s \in S |-> 0] /\ closeBit = [s \in S |-> "no"] /\ handles = [s \in S |-> IF KindOf(s) = "chan" THEN [q |-> <<>>, snd |-> 1, closed |-> FALSE, n |-> 0] ELSE 1]
   /\ tdl = [s \in S |-> [has |-> D(s).hasdl = 1, v |-> D(s).dl]]
   /\ treg = [s \in S |-> [on |-> FALSE, key |-> NoTok, ctr |-> 0]]
   /\ heap = {} /\ expired = {} /\ nextCtr = 0 /\ now = 0
@@ -369,6 +371,24 @@ DropPing(s) ==
   /\ handles' = [handles EXCEPT ![s] = @ - 1]
   /\ closeBit' = [closeBit EXCEPT ![s] = IF handles[s] = 1 THEN "pending" ELSE @]
   /\ Emit(WithSnap(<<OpEv("drop_ping", [s |-> s]), RetEv("drop_ping", "ok", <<>>)>>))
+
+\* Sender::send = push, then ping;  drop of the last Sender = drop the mpsc sender, then ping (PingOnDrop)
+Send(s) ==
+  /\ CanOp("send") /\ KindOf(s) = "chan" /\ handles[s].snd > 0 /\ handles[s].n < 3 /\ obj[s] # "gone" /\ Budget
+  /\ UNCHANGED <<slots, lifeSet, pending, idles, issued, obj, heldD, enabled, gtok, kern, rdy, edgeq, closeBit,
+                 tdl, treg, heap, expired, nextCtr, now, pc, cbCount, nfaults, nextIdle, failNext>>
+  /\ LET m == s * 100 + handles[s].n + 1 IN
+     /\ handles' = [handles EXCEPT ![s].q = Append(@, m), ![s].n = @ + 1]
+     /\ pingCnt' = [pingCnt EXCEPT ![s] = IF @ < 2 THEN @ + 1 ELSE @]
+     /\ Emit(WithSnap(<<OpEv("send", [s |-> s, m |-> m]), RetEv("send", "ok", <<>>)>>))
+
+DropSender(s) ==
+  /\ CanOp("drop_sender") /\ KindOf(s) = "chan" /\ handles[s].snd > 0 /\ obj[s] # "gone" /\ Budget
+  /\ UNCHANGED <<slots, lifeSet, pending, idles, issued, obj, heldD, enabled, gtok, kern, rdy, edgeq, closeBit,
+                 tdl, treg, heap, expired, nextCtr, now, pc, cbCount, nfaults, nextIdle, failNext>>
+  /\ handles' = [handles EXCEPT ![s].snd = @ - 1]
+  /\ pingCnt' = [pingCnt EXCEPT ![s] = IF @ < 2 THEN @ + 1 ELSE @]
+  /\ Emit(WithSnap(<<OpEv("drop_sender", [s |-> s]), RetEv("drop_sender", "ok", <<>>)>>))
 
 Wr(s, c) ==
   /\ CanOp("wr") /\ KindOf(s) = "comp" /\ c \in 1..NC(s) /\ obj[s] # "gone" /\ Budget
@@ -558,10 +578,17 @@ CbChild(s) ==
   ELSE IF \E c \in 1..NC(s) : gtok[s][c] = CurEv.key
        THEN CHOOSE c \in 1..NC(s) : gtok[s][c] = CurEv.key ELSE 0
 
+\* Channel::process_events: what the `tries`+1-th iteration of its drain loop does
+ChanStep(s, tries) ==
+  IF tries >= ChanLimit THEN [what |-> "limit", m |-> 0]
+  ELSE IF handles[s].q # <<>> THEN [what |-> "msg", m |-> Head(handles[s].q)]
+  ELSE IF handles[s].snd = 0 THEN [what |-> "closed", m |-> 0]
+  ELSE [what |-> "empty", m |-> 0]
+
 \* process_events entered (the dispatcher is now mutably borrowed); the callback starts, or not
 ProcessBegin ==
   /\ pc = "ev" /\ dsp.pos <= Len(dsp.batch) /\ dsp.disp # NoSrc
-  /\ UNCHANGED <<slots, lifeSet, pending, idles, issued, obj, heldD, enabled, gtok, kern, rdy, edgeq, handles,
+  /\ UNCHANGED <<slots, lifeSet, pending, idles, issued, obj, heldD, enabled, gtok, kern, rdy, edgeq,
                  tdl, treg, heap, nextCtr, now, steps, nfaults, nextIdle, failNext>>
   /\ LET s == dsp.disp
          c == CbChild(s)
@@ -573,7 +600,7 @@ ProcessBegin ==
                      \o (IF IsLife(s) /\ NC(s) >= 1 /\ gtok[s][1] # NoTok /\ CurEv.key = SynthKey(s)
                          THEN <<[e |-> "synth_pe", s |-> s]>> ELSE <<>>)
                      \o <<[e |-> "peret", s |-> s, act |-> "continue", us |-> Us]>>)
-             /\ UNCHANGED <<pingCnt, closeBit, cbCount, expired>>
+             /\ UNCHANGED <<pingCnt, closeBit, cbCount, expired, handles>>
         ELSE IF KindOf(s) = "ping"
         THEN \* drain the eventfd; callback iff pinged; Remove iff the close marker was there
              IF pingCnt[s] > 0
@@ -582,14 +609,31 @@ ProcessBegin ==
                   /\ closeBit' = [closeBit EXCEPT ![s] = IF @ = "pending" THEN "seen" ELSE @]
                   /\ cbCount' = [cbCount EXCEPT !.cb[s] = @ + 1]
                   /\ Emit(<<PeEv(s), [e |-> "cb", s |-> s, sub |-> 0, p |-> 0, k |-> cbCount.cb[s], us |-> Us]>>)
-                  /\ UNCHANGED expired
+                  /\ UNCHANGED <<expired, handles>>
              ELSE /\ pc' = "post"
                   /\ dsp' = [dsp EXCEPT !.ev = <<IF closeBit[s] = "pending" THEN 1 ELSE 0, 0, 0>>,
                                         !.act = IF closeBit[s] = "pending" THEN "remove" ELSE "continue"]
                   /\ closeBit' = [closeBit EXCEPT ![s] = IF @ = "pending" THEN "seen" ELSE @]
                   /\ Emit(<<PeEv(s), [e |-> "peret", s |-> s, act |-> IF closeBit[s] = "pending" THEN "remove" ELSE "continue", us |-> Us]>>)
-                  /\ UNCHANGED <<pingCnt, cbCount, expired>>
+                  /\ UNCHANGED <<pingCnt, cbCount, expired, handles>>
+        ELSE IF KindOf(s) = "chan"
+        THEN \* drain the eventfd, then the channel's loop: the first try_recv
+             LET r == ChanStep(s, 0) IN
+             /\ pingCnt' = [pingCnt EXCEPT ![s] = 0] /\ UNCHANGED <<closeBit, expired>>
+             /\ CASE r.what = "msg" ->
+                       /\ pc' = "incb" /\ dsp' = [dsp EXCEPT !.ops = MaxCbOps, !.ev = <<1, 1, 0>>]
+                       /\ handles' = [handles EXCEPT ![s].q = Tail(@)] /\ cbCount' = [cbCount EXCEPT !.cb[s] = @ + 1]
+                       /\ Emit(<<PeEv(s), [e |-> "cb", s |-> s, sub |-> 0, p |-> r.m, k |-> cbCount.cb[s], us |-> Us]>>)
+                  [] r.what = "closed" ->
+                       /\ pc' = "incb" /\ dsp' = [dsp EXCEPT !.ops = MaxCbOps, !.ev = <<-1, 1, 0>>]
+                       /\ handles' = [handles EXCEPT ![s].closed = TRUE] /\ cbCount' = [cbCount EXCEPT !.cb[s] = @ + 1]
+                       /\ Emit(<<PeEv(s), [e |-> "cb", s |-> s, sub |-> 0, p |-> -1, k |-> cbCount.cb[s], us |-> Us]>>)
+                  [] OTHER -> \* Empty
+                       /\ pc' = "post" /\ dsp' = [dsp EXCEPT !.ev = <<0, 0, 0>>, !.act = "continue"]
+                       /\ UNCHANGED <<handles, cbCount>>
+                       /\ Emit(<<PeEv(s), [e |-> "peret", s |-> s, act |-> "continue", us |-> Us]>>)
         ELSE /\ pc' = "incb" /\ dsp' = [dsp EXCEPT !.ops = MaxCbOps, !.ev = <<0, c, 0>>]
+             /\ handles' = handles
              /\ cbCount' = [cbCount EXCEPT !.cb[s] = @ + 1]
              /\ expired' = IF KindOf(s) = "timer" THEN expired \ {treg[s].ctr} ELSE expired
              /\ Emit(<<PeEv(s), [e |-> "cb", s |-> s, sub |-> IF KindOf(s) = "comp" THEN c - 1 ELSE 0,
@@ -599,8 +643,43 @@ ProcessBegin ==
 
 \* the callback returns `ret`; process_events returns the source's post action
 CbRetSet(s) == IF KindOf(s) = "comp" THEN Rets ELSE IF KindOf(s) = "timer" THEN TimerRets ELSE {"none"}
+\* a channel callback returned: the drain loop goes on (next message / Closed / Empty / batch limit)
+ChanCallbackEnd ==
+  /\ pc = "incb" /\ KindOf(dsp.disp) = "chan"
+  /\ UNCHANGED <<slots, lifeSet, pending, idles, issued, obj, heldD, enabled, gtok, kern, rdy, edgeq, closeBit,
+                 tdl, treg, heap, expired, nextCtr, now, steps, nfaults, nextIdle, failNext>>
+  /\ LET s == dsp.disp
+         tries == dsp.ev[1]
+         cbret == [e |-> "cbret", s |-> s, ret |-> "none", arg |-> 0, us |-> Us]
+     IN IF tries = -1
+        THEN \* Closed was delivered: Remove
+             /\ pc' = "post" /\ dsp' = [dsp EXCEPT !.ops = 0, !.act = "remove"]
+             /\ Emit(<<cbret, [e |-> "peret", s |-> s, act |-> "remove", us |-> Us]>>)
+             /\ UNCHANGED <<handles, pingCnt, cbCount>>
+        ELSE LET r == ChanStep(s, tries) IN
+             CASE r.what = "msg" ->
+                    /\ pc' = pc /\ dsp' = [dsp EXCEPT !.ops = MaxCbOps, !.ev = <<tries + 1, 1, 0>>]
+                    /\ handles' = [handles EXCEPT ![s].q = Tail(@)] /\ cbCount' = [cbCount EXCEPT !.cb[s] = @ + 1]
+                    /\ pingCnt' = pingCnt
+                    /\ Emit(<<cbret, [e |-> "cb", s |-> s, sub |-> 0, p |-> r.m, k |-> cbCount.cb[s], us |-> Us]>>)
+               [] r.what = "closed" ->
+                    /\ pc' = pc /\ dsp' = [dsp EXCEPT !.ops = MaxCbOps, !.ev = <<-1, 1, 0>>]
+                    /\ handles' = [handles EXCEPT ![s].closed = TRUE] /\ cbCount' = [cbCount EXCEPT !.cb[s] = @ + 1]
+                    /\ pingCnt' = pingCnt
+                    /\ Emit(<<cbret, [e |-> "cb", s |-> s, sub |-> 0, p |-> -1, k |-> cbCount.cb[s], us |-> Us]>>)
+               [] r.what = "limit" ->
+                    \* stopped for the batch limit: re-notify itself so that the rest is handled by the next dispatch
+                    /\ pc' = "post" /\ dsp' = [dsp EXCEPT !.ops = 0, !.act = "continue"]
+                    /\ pingCnt' = [pingCnt EXCEPT ![s] = IF "chan_no_rearm" \in Variants THEN @ ELSE (IF @ < 2 THEN @ + 1 ELSE @)]
+                    /\ UNCHANGED <<handles, cbCount>>
+                    /\ Emit(<<cbret, [e |-> "peret", s |-> s, act |-> "continue", us |-> Us]>>)
+               [] OTHER -> \* Empty: readiness cleared
+                    /\ pc' = "post" /\ dsp' = [dsp EXCEPT !.ops = 0, !.act = "continue"]
+                    /\ UNCHANGED <<handles, pingCnt, cbCount>>
+                    /\ Emit(<<cbret, [e |-> "peret", s |-> s, act |-> "continue", us |-> Us]>>)
+
 CallbackEnd(ret) ==
-  /\ pc = "incb" /\ ret \in CbRetSet(dsp.disp)
+  /\ pc = "incb" /\ ret \in CbRetSet(dsp.disp) /\ KindOf(dsp.disp) # "chan"
   /\ LET s == dsp.disp
          act == CASE KindOf(s) = "ping" -> IF dsp.ev[1] = 1 THEN "remove" ELSE "continue"
                   [] KindOf(s) = "timer" -> IF ret = "drop" THEN "remove" ELSE "continue"
@@ -704,7 +783,7 @@ ApiOp ==
   \/ \E s \in S : Insert(s)
   \/ \E t \in DOMAIN issued : OpRemove(t)
   \/ \E t \in DOMAIN issued, n \in {"disable", "enable", "update"} : TokenOpGuard(n, t) /\ TokenOp(n, t)
-  \/ \E s \in S : Ping(s) \/ DropPing(s)
+  \/ \E s \in S : Ping(s) \/ DropPing(s) \/ Send(s) \/ DropSender(s)
   \/ \E s \in S, c \in 1..2 : Wr(s, c) \/ Rd(s, c)
   \/ \E s \in S, d \in {now, now + 1, now + 5} : SetDeadline(s, d)
   \/ InsertIdle
@@ -715,7 +794,7 @@ Next ==
   \/ Advance
   \/ \E s \in S, call \in {"register", "unregister", "reregister"} : Fault(s, call)
   \/ DispatchBegin \/ BeforeSleep \/ BsDone \/ Poll \/ BeforeHandle \/ BheDone
-  \/ Lookup \/ ProcessBegin \/ \E r \in Rets \cup TimerRets \cup {"none"} : CallbackEnd(r)
+  \/ Lookup \/ ProcessBegin \/ ChanCallbackEnd \/ \E r \in Rets \cup TimerRets \cup {"none"} : CallbackEnd(r)
   \/ PostAction \/ EventsDone \/ IdleBegin \/ IdleEnd \/ DispatchEnd
 
 Spec == Init /\ [][Next]_vars
